@@ -128,6 +128,18 @@ CHECKS = {
         design_ref="5/C09", note=PIPE_NOTE + "3-4 zones and nested sites are outside the bound. " + ENGINE_NOTE,
         technique="solver-based path-exhaustive symbolic execution of the real pipeline (z3)",
     ),
+    "C10": dict(
+        category="model_checking",
+        text="The real prepare_problem (tree synthesis, label rewriting, nested zone creation, stream-to-zone matching, bottom-up "
+             "aggregation, per-zone utility copies) is executed with stream duties as z3 reals and every stream's zone label and name "
+             "as solver choices from collision-prone pools; per path the negated conservation statement -- for every zone, hot and cold "
+             "duty (linear forms in the unknown duties) and stream count equal those of the streams labelled into it; one generated "
+             "leaf per stream; no stream object in two leaves; independent utility copies -- is discharged.",
+        design_ref="5/C10",
+        note="2-3 streams; labels from a 12-element pool (9 with the fixed user tree), names from {S,S_1}: finite-domain symbolic, not "
+             "unbounded strings. Recorded finding: label naming a non-leaf zone of a user tree. " + ENGINE_NOTE,
+        technique="solver-based path-exhaustive symbolic execution of the real code (z3); labels as finite-domain solver choices",
+    ),
 }
 
 NOT_YET = {}
